@@ -3,7 +3,7 @@
    Each theorem is closed by `exact <lemma>` and followed by Print Assumptions. *)
 From V.lib Require Import Base.
 From V.c08 Require Import C08Model C08Spec C08SelModel C08FragModel C08FragProofs C08EncModel C08EncProofs
-     C08CopyProofs C08InterProofs.
+     C08CopyProofs C08InterProofs C08SwModel C08SwProofs.
 
 (* DecodeFile = top-level walk + the per-box checks of the loop + File.AddChild (isFragmented, Init, File.Mdat,
    Sidxs, Segments, Fragments with Moof / Mdat / Emsgs / Children, Mfra, lastBoxType), with or without
@@ -124,4 +124,86 @@ Example C08_interleaved_hyps :
   expected_samples file tb1 ch1 1 3 = [11;12;21;22;31;32] /\
   expected_samples file tb2 ch2 2 2 = [92;93] /\
   copy_sample_data true file true (mdat_lazy 0 false 9) (Some (mkRS 0 [1;1;1;1;1;1])) tb1 ch1 1 3 [0;0] = Ok [11;12;21;22;31;32].
+Proof. vm_compute. repeat split; reflexivity. Qed.
+
+(* ---- round 4: the SliceWriter encode path (MdatBox.EncodeSW / EncodeHeaderWithSizeSW / File.EncodeSW on a
+   bits.FixedSliceWriter: fixed buffer, a write that does not fit is skipped and sets the accumulated error) ---- *)
+
+(* MdatBox.EncodeSW against MdatBox.Encode, for ANY mdat box (lazy or not, any LargeSize flag, any sizes) and ANY
+   writer state (capacity, bytes already written, error already accumulated or not):
+   (1) no earlier error and the bytes Encode writes fit: no error, exactly those bytes are appended;
+   (2) they do not fit: error, and what was appended is a PROPER prefix of them (whole header fields);
+   (3) Encode refuses: EncodeSW refuses and writes nothing;  (4) an earlier accumulated error is returned;
+   (5) Encode has no other outcome. *)
+Theorem C08_encode_sw_equal :
+  forall m w,
+  (forall bs, mdat_encode m = Ok bs -> sw_err w = false -> lenN (sw_out w) + lenN bs <= sw_cap w ->
+     mdat_encode_sw m w = (true, mkSW (sw_cap w) (sw_out w ++ bs) false))
+  /\ (forall bs, mdat_encode m = Ok bs -> sw_cap w < lenN (sw_out w) + lenN bs ->
+     exists pre rest, bs = pre ++ rest /\ rest <> [] /\
+       mdat_encode_sw m w = (false, mkSW (sw_cap w) (sw_out w ++ pre) true))
+  /\ (mdat_encode m = Err -> mdat_encode_sw m w = (false, w))
+  /\ (sw_err w = true -> fst (mdat_encode_sw m w) = false)
+  /\ (mdat_encode m = Err \/ exists bs, mdat_encode m = Ok bs).
+Proof. exact encode_sw_equal. Qed.
+Print Assumptions C08_encode_sw_equal.
+
+(* the clause "encoding a lazily decoded media-data box writes exactly its header" on the SliceWriter path: for
+   every mdat box lying in a file, EncodeSW of the lazily decoded box appends exactly the original header bytes
+   and needs only HeaderSize() bytes of room (Size() counts the payload it does not write); with less room it
+   fails; EncodeSW of the in-memory box appends header ++ payload = the original box and needs Size() bytes. *)
+Theorem C08_lazy_encode_sw :
+  forall file startPos large payloadLen w,
+  box_in_file file startPos large payloadLen = true ->
+  header_at file startPos large payloadLen = true ->
+  sw_err w = false ->
+  (lenN (sw_out w) + hdr_len large <= sw_cap w ->
+     mdat_encode_sw (mdat_lazy startPos large payloadLen) w
+     = (true, mkSW (sw_cap w) (sw_out w ++ sub file startPos (hdr_len large)) false))
+  /\ (sw_cap w < lenN (sw_out w) + hdr_len large ->
+     fst (mdat_encode_sw (mdat_lazy startPos large payloadLen) w) = false)
+  /\ (lenN (sw_out w) + hdr_len large + payloadLen <= sw_cap w ->
+     mdat_encode_sw (mdat_mem file startPos large payloadLen) w
+     = (true, mkSW (sw_cap w) (sw_out w ++ sub file startPos (hdr_len large) ++ sub file (startPos + hdr_len large) payloadLen) false))
+  /\ (sw_cap w < lenN (sw_out w) + hdr_len large + payloadLen ->
+     fst (mdat_encode_sw (mdat_mem file startPos large payloadLen) w) = false)
+  /\ sub file startPos (hdr_len large) ++ sub file (startPos + hdr_len large) payloadLen
+     = sub file startPos (hdr_len large + payloadLen).
+Proof. exact lazy_encode_sw'. Qed.
+Print Assumptions C08_lazy_encode_sw.
+
+(* File.EncodeSW (progressive file / EncModeBoxTree; boxes other than mdat opaque) of both decodings of a file that
+   is a sequence of boxes, into a writer with no earlier error: the in-memory decoding appends the file and needs
+   lenN file bytes (= File.Size()); the lazy decoding appends the file with every mdat payload left out and needs
+   only that many bytes (so a writer of File.Size() bytes always suffices); with less room: error. *)
+Theorem C08_file_encode_sw :
+  forall file bs w,
+  lenN file < 9223372036854775808 ->
+  layout_at file 0 bs = true -> sw_err w = false -> lenN (sw_out w) <= sw_cap w ->
+  (lenN (sw_out w) + lenN file <= sw_cap w ->
+     encode_tops_sw file (views false file 0 bs) w = (true, mkSW (sw_cap w) (sw_out w ++ file) false))
+  /\ (lenN (sw_out w) + lenN (elide file 0 bs) <= sw_cap w ->
+     encode_tops_sw file (views true file 0 bs) w = (true, mkSW (sw_cap w) (sw_out w ++ elide file 0 bs) false))
+  /\ lenN (elide file 0 bs) <= lenN file
+  /\ (sw_cap w < lenN (sw_out w) + lenN file -> fst (encode_tops_sw file (views false file 0 bs) w) = false)
+  /\ (sw_cap w < lenN (sw_out w) + lenN (elide file 0 bs) -> fst (encode_tops_sw file (views true file 0 bs) w) = false).
+Proof. exact file_encode_sw'. Qed.
+Print Assumptions C08_file_encode_sw.
+
+(* satisfiable, non-trivial: free + mdat(16-byte header, 2 bytes) + moov, a writer of 40 bytes already holding 3:
+   the lazy decoding appends 33 bytes (header only), the in-memory one the 35 bytes of the file; a writer with
+   room for 34 bytes takes the lazy File but not the in-memory one; EncodeSW of the lazy mdat alone into a writer
+   with 15 free bytes fails after the size-1 marker and the type (8 bytes: a proper prefix of the header). *)
+Example C08_encode_sw_hyps :
+  let file := [0;0;0;8;102;114;101;101; 0;0;0;1;109;100;97;116;0;0;0;0;0;0;0;18;1;2; 0;0;0;9;109;111;111;118;7] in
+  let bs := [mkBD [102;114;101;101] false 0; mkBD name_mdat true 2; mkBD [109;111;111;118] false 1] in
+  let w := mkSW 40 [90;90;90] false in
+  layout_at file 0 bs = true /\ box_in_file file 8 true 2 = true /\ header_at file 8 true 2 = true /\
+  encode_tops_sw file (views true file 0 bs) w = (true, mkSW 40 ([90;90;90] ++ elide file 0 bs) false) /\
+  encode_tops_sw file (views false file 0 bs) w = (true, mkSW 40 ([90;90;90] ++ file) false) /\
+  fst (encode_tops_sw file (views false file 0 bs) (mkSW 37 [90;90;90] false)) = false /\
+  fst (encode_tops_sw file (views true file 0 bs) (mkSW 37 [90;90;90] false)) = true /\
+  mdat_encode_sw (mdat_lazy 8 true 2) (mkSW 18 [90;90;90] false) = (false, mkSW 18 [90;90;90;0;0;0;1;109;100;97;116] true) /\
+  mdat_encode_sw (mdat_lazy 8 true 2) (mkSW 19 [90;90;90] false)
+  = (true, mkSW 19 ([90;90;90] ++ sub file 8 16) false).
 Proof. vm_compute. repeat split; reflexivity. Qed.
